@@ -74,7 +74,7 @@ fn c15_slice_new() {
     kani::cover!(!valid && a <= b && b <= len, "in-range bounds that cut a character");
 }
 
-// @props C15 C06
+// @props C15 C06:thorough
 // @fns StringSlice::<usize>::with_bounds, StringSlice::<u16>::with_bounds, StringSlice::try_convert, StringSlice::as_str
 // @bound base slice = any valid sub-slice of a string of <= 3 characters from {a, U+00E9, U+5B57}; relative bounds a <= 12, b <= base length (the caller precondition KRange::indices establishes, see c01_range_indices)
 // @assume relative end <= length of the base slice (established by every in-repo caller through KRange::indices(len))
@@ -123,7 +123,7 @@ fn c15_slice_with_bounds() {
     kani::cover!(!valid && a <= b, "relative bounds that cut a character");
 }
 
-// @props C15 C06
+// @props C15 C06:thorough
 // @fns StringSlice::<usize>::split, StringSlice::<u16>::split (used by KString::pop_front / pop_back)
 // @bound base slice = any valid sub-slice of a string of <= 3 characters; offset <= base length (what pop_front/pop_back pass: a grapheme length)
 // @assume offset <= length of the slice (callers pass the length of a grapheme of the slice)
